@@ -98,6 +98,7 @@ Record codec := {
   (* defect switches: true = the repaired behaviour *)
   cd_bs_checked : bool;                  (* string_from_attrs rejects bs=0 *)
   cd_nulless_furibug_rejected : bool;    (* string_from_attrs rejects nulless together with furibug *)
+  cd_mask_overflow_checked : bool;       (* encode_args reports a register argument for which the mask has no bit left *)
   cd_place_with_padding : bool;          (* IntrinsicBuilder::into_vec allocates for indices that count padding *)
   cd_match_skips_padding : bool          (* call arguments are matched against non-defaulted parameters only *)
 }.
@@ -324,6 +325,7 @@ Fixpoint enc_loop (cd : codec) (sig : list enc) (args : list arg) (bit : Z) (st 
       match args with
       | [] => Panic P_EXPECT
       | a :: args' =>
+          if cd_mask_overflow_checked cd && a_reg a && contributes cd e && (bit =? 0) then Err E_TOOMANY else
           let arg_bit := if a_reg a then bit else 0 in
           let '(m0, w0, bit1) :=
             if contributes cd e then
